@@ -248,8 +248,14 @@ class Connection(Stateful):
         self._channels = {}
         self._last_channel_id = None
         self._io.open()
-        self._send_handshake()
-        self._wait_for_connection_state(state=Stateful.OPEN)
+        try:
+            self._send_handshake()
+            self._wait_for_connection_state(state=Stateful.OPEN)
+        except AMQPConnectionError:
+            # Do not leave the socket and the inbound thread behind.
+            self.set_state(self.CLOSED)
+            self._io.close()
+            raise
         self.heartbeat.start(self._exceptions)
         LOGGER.debug('Connection Opened')
 
